@@ -375,6 +375,14 @@ func c12Headers(rc *RC, sutReceives bool) {
 			defer func() { decoy = "" }()
 			return mk(el, "stream", goodNS, "jabber:client", "-", "sid1")(from, to)
 		}},
+		{"stream-prefix-undeclared", false, false, func(from, to string) string {
+			// the header stands on its own: a prefix that only the previous stream's header had declared means nothing
+			if ws {
+				return mk(el, "stream", "urn:wrong", "jabber:client", "1.0", "sid1")(from, to)
+			}
+			h := mk(el, "stream", goodNS, "jabber:client", "1.0", "sid1")(from, to)
+			return strings.Replace(h, ` xmlns:stream='`+goodNS+`'`, ``, 1)
+		}},
 		{"stream-error", false, true, func(from, to string) string {
 			return `<stream:error xmlns:stream='http://etherx.jabber.org/streams'><host-unknown xmlns='urn:ietf:params:xml:ns:xmpp-streams'/></stream:error>`
 		}},
@@ -383,7 +391,15 @@ func c12Headers(rc *RC, sutReceives bool) {
 	restartCase := ch.Chance("workload", 1, 3)
 	// after the restart: 0 same addresses, 1 different from, 2 different to, 3/4 from/to differing only in the resourcepart,
 	// 5/6 from/to replaced by an address of the same length and shape (one letter of the local- or domainpart differs)
-	changed := ch.Int("workload", 7)
+	// 7/8 from/to replaced by an address made of the same characters with the '@' in another place
+	changed := ch.Int("workload", 9)
+	moveAt := func(a string) string {
+		// me@example.net -> meexample.net, example.net -> exam@ple.net
+		if i := strings.IndexByte(a, '@'); i > 0 {
+			return a[:i] + a[i+1:]
+		}
+		return a[:4] + "@" + a[4:]
+	}
 	sameShape := func(a string) string {
 		// example.net -> example.org, me@example.net -> ne@example.net
 		if i := strings.IndexByte(a, '@'); i > 0 {
@@ -468,6 +484,10 @@ func c12Headers(rc *RC, sutReceives bool) {
 				f = sameShape(origin.String())
 			case 6:
 				t = sameShape("example.net")
+			case 7:
+				f = moveAt(origin.String())
+			case 8:
+				t = moveAt("example.net")
 			}
 			if changed != 0 && useDecoy {
 				decoy = fmt.Sprintf(` xmlns:x='urn:x' x:from='%s' x:to='%s'`, origin.String(), "example.net")
@@ -509,6 +529,10 @@ func c12Headers(rc *RC, sutReceives bool) {
 			f = sameShape("example.net")
 		case 6:
 			t = sameShape(origin.String())
+		case 7:
+			f = moveAt("example.net")
+		case 8:
+			t = moveAt(origin.String())
 		}
 		if changed != 0 && useDecoy {
 			decoy = fmt.Sprintf(` xmlns:x='urn:x' x:from='%s' x:to='%s'`, "example.net", origin.String())
